@@ -17,6 +17,8 @@ Decided clauses:
   R18.5 a generated secret does not depend on what the output buffer held before: in every function that draws a constant number
         of bytes into an output parameter, every returning path draws, and nothing reads the buffer (load, or call receiving
         it) before the first draw - a `while (!valid(r)) draw(r)` loop returns the caller's stale bytes when they happen to be valid.
+  R18.6 every dispatch in randombytes.c fetches the function pointer from the struct `implementation` points to at the time of the
+        call (no cached copy of a slot can survive randombytes_set_implementation()).
 NOT decided: that min == 2^32 mod n (arithmetic); bit-exact replay.
 """
 import re
@@ -106,6 +108,31 @@ def run(ctx, chk):
                        detail=why or "%s bytes into %s" % (T.show(size, f), T.show(dest, f)), path=None if ok else p,
                        key="R18.1 %s coverage" % f.sname)
     chk.floor("R18.1", "randombytes_buf call sites outside randombytes/", n, 40)
+    # ---- R18.6 every dispatch reads the installed source at call time ---------------------------------------------------------
+    n6 = 0
+    for f in sorted(prog.functions(), key=lambda f: f.name):
+        if f.unit != "randombytes/randombytes.c":
+            continue
+        seen6 = set()
+        for p in cm.paths(prog, f):
+            for e in p.calls():
+                if e.callee[0] != "ind" or e.iid in seen6:
+                    continue
+                seen6.add(e.iid)
+                n6 += 1
+                fp = e.callee[1]
+                ld = [x for x in p.events[:e.idx] if x.kind == "load" and x.res == fp]
+                ok = False
+                src = "a value that is not loaded from memory"
+                if ld:
+                    base = T.root(ld[-1].addr)
+                    src = T.show(ld[-1].addr, f)
+                    bl = [x for x in p.events[:ld[-1].idx] if x.kind == "load" and x.res == base]
+                    ok = bool(bl) and bl[-1].addr == ("g", "implementation")
+                chk.ob("R18.6", f, "the generator function is fetched from *implementation when it is called", ok, loc=f.loc(e.iid),
+                       path=None if ok else p, detail="" if ok else "the function pointer comes from %s: a copy made earlier keeps "
+                       "pointing at the previous source after randombytes_set_implementation()" % src, key="R18.6 %s dispatch" % f.sname)
+    chk.floor("R18.6", "indirect calls in randombytes.c", n6, 6)
     # ---- R18.5 the generated secret does not depend on what the output buffer held -----------------------------------------
     n5 = 0
     for f in gens:
